@@ -328,6 +328,12 @@ def check_cli_case(ctx, rng, index):
     view = connection.execute('SELECT zeta_mm, elapsed_time_s FROM average_recession_time ORDER BY zeta_mm').fetchall()
     et_own, et_first, nsteps = own_interval_et(connection)
     connection.close()
+    if et_own < 0:
+        # outside the domain: night-time condensation outweighs the day inside the recession intervals;
+        # the simulator refuses a negative mean evapotranspiration (through an assert statement)
+        rec.hit('cli-cases-with-negative-mean-evapotranspiration (outside the domain)')
+        os.remove(db)
+        return
     zlo, zhi = min(v[0] for v in view), max(v[0] for v in view)
     kinds = ['spline'] if black_box else ['spline', 'peatclsm', rng.choice(['spline-sy+peatclsm-T', 'peatclsm-sy+spline-T'])]
     for kind in kinds:
